@@ -94,7 +94,14 @@ LEVEL_TEXT = (
     "+backoff+timeout, or the clock has not passed these yet), gone_at_deleted_event + nothing_spawned_for_gone_object, "
     "stopped_when_operator_exits (the same for OPERATOR_EXITING from the instant the killer's exit sweep began, for every instance of a "
     "known memory), nothing_spawned_while_exiting (no label list spawns once the operator is marked as exiting), "
-    "no_killer_after_final_sweep. The former negations are kept as HISTORICAL theorems about the old variants "
+    "no_killer_after_final_sweep. THAT THE MARK REACHES THE PAIR'S MEMORY is the inventory level (Model/C09_Inventory.lean: all "
+    "memories, the view iter_all_daemon_memories, recall's inheritance, spawn_daemons' guard; tied to the AST by views_every_memory + "
+    "marks_exiting, and by S on every cycle after the sweep): exit_mark_covers_every_memory (idle or busy), "
+    "nothing_spawned_after_exit_mark (after the mark NO list of further worker/runner operations — events of known objects idle or "
+    "busy at the sweep, of new objects, DELETED events, instances ending — creates an instance), idle_memory_in_view_iff, "
+    "filtered_view_same_for_stopping (why a view without the idle memories looks harmless: the stopping loops reach the same "
+    "daemons), with the variant `viewAll = false` (seed C09g) refuted by exit_mark_skips_idle_witness + "
+    "idle_pair_respawns_under_filtered_view (corpus exit-idle-*.json). The former negations are kept as HISTORICAL theorems about the old variants "
     "(`stopsGone = false`: gone_unmarked_not_stopped, orphan_never_stopped, gone_unmarked_witness; `marksExiting = false`: "
     "respawned_while_exiting, exit_respawn_witness); corpus F10.json / F13.json are passing regressions. NOT theorems "
     "(oracle upper-bound clauses O8/O9 + ties only): that cancellation/abandonment DO happen when the stop is driven by processing "
@@ -109,6 +116,8 @@ THEOREMS = [("Kopf.Props.C09", "Kopf.C09." + n) for n in [
     "stopped_when_operator_exits", "nothing_spawned_while_exiting", "no_killer_after_final_sweep",
     "stopped_when_object_disappears", "gone_at_deleted_event", "nothing_spawned_for_gone_object",
     "respawned_while_exiting", "exit_respawn_witness",
+    "exit_mark_covers_every_memory", "nothing_spawned_after_exit_mark", "idle_memory_in_view_iff",
+    "filtered_view_same_for_stopping", "exit_mark_skips_idle_witness", "idle_pair_respawns_under_filtered_view",
     "gone_unmarked_not_stopped", "orphan_never_stopped", "gone_unmarked_witness",
     "progress", "daemon_progress", "stopped_timer_returns", "stopped_daemon_returns",
     "escorted_whatever_matching", "mismatch_stages_visited", "mismatch_flag_is_kept", "escorted_to_the_end",
@@ -121,7 +130,7 @@ TIE_THEOREMS = [("Kopf.Tie.C09", "Kopf.C09.Tie." + n) for n in ["stage_eq", "kil
                                                                          "timer_loop_guarded", "killer_iterates_snapshots",
                                                                          "sweep_unconditional", "killer_period_eq",
                                                                          "loops_yield_each_iteration", "timer_failure_is_forever",
-                                                                         "stops_gone", "marks_exiting",
+                                                                         "stops_gone", "marks_exiting", "views_every_memory",
                                                                          "sleeps_wake_on_stop", "timer_rechecks_stop_after_idle",
                                                                          "spawn_act_eq", "match_visits_eq", "revisit_now_eq"]]
 RULE = ("seeded whole-operator histories: 1-2 objects, 1-3 daemons/timers (modes obey/cancel/ignore/exit; cancellation_backoff/"
@@ -132,11 +141,15 @@ RULE = ("seeded whole-operator histories: 1-2 objects, 1-3 daemons/timers (modes
         "'asleep' (the stop arrives while the wrapper sleeps: timer idle wait / interval / initial delay / retry delay, daemon initial "
         "delay / retry delay; through deletion, forced disappearance, mismatch, pause, exit), 'rematch' (mismatch with the object staying "
         "mismatching through all stages, or matching again inside / after them), 'exit-flagged' (exit while a daemon is in an early stage "
-        "of another stop), 8% of all histories with settings.background.instant_exit_timeout set (oracle only); one case = one "
+        "of another stop), 'exit-idle' (7%: exit while a KNOWN object has no instance — never matched / stopped matching and its "
+        "instances have ended / its daemon exited by itself — with an event by which a daemon or timer matches queued behind a change "
+        "handler in flight or landing within 2/64 s of the stop request, processed after the killer's final sweep; optionally a second "
+        "object, busy or idle), 8% of all histories with settings.background.instant_exit_timeout set (oracle only); one case = one "
         "process_spawning_cause pass or one daemon-killer stop_daemon run; distinct & non-trivial = distinct abstracted "
         "(inputs, pre-state shape, stage taken) tuples in which something is spawned, flagged, cancelled, abandoned or ended")
 TRUSTED = ["harness/sim (virtual-time loop, fake API server) + the local instrumentation in harness/props/c09.py",
-           "pyextract atom vocabulary for daemons.stop_daemons / stop_daemon / spawn_daemons / match_daemons",
+           "pyextract atom vocabulary for daemons.stop_daemons / stop_daemon / spawn_daemons / match_daemons and the accepted shapes "
+           "of inventory.ResourceMemories.iter_all_daemon_memories",
            "the oracle's reading of 'matches' (label equality/presence filters only) and its reaction allowance of 1 s virtual time "
            "(0.25 s for an instance none of whose user code runs to end on its flag; one cancellation_polling period + 1 s for a start "
            "that had to wait for the previous, stopping instance to end)"]
@@ -883,6 +896,75 @@ def gen_exit_depletion_scenario(rng: Any, seed: int) -> dict:
             "flavour": "exit-depletion"}
 
 
+def gen_exit_idle_scenario(rng: Any, seed: int) -> dict:
+    """The operator is asked to stop while an object it KNOWS has no instance at all (its memory is idle when the daemon
+    killer does its final sweep): it never matched the daemons' filters, or it stopped matching and its instances have
+    ended, or its only instance has exited on its own. An event by which a daemon / timer (newly) matches is in the
+    worker's backlog — queued behind a change handler in flight, or landing in the very instant of the stop request (or
+    1/64 s before / after it) — and is processed AFTER the sweep. Nothing may be started then (nobody is left to stop it).
+    Optionally a second object of the same kind that is busy all the time (a mixed inventory: busy and idle memories),
+    or a second idle one."""
+    handlers: list[dict] = []
+    for k in range(rng.choice([1, 1, 2])):
+        opts: dict[str, Any] = {"labels": {"on": rng.choice(["1", "1", "__PRESENT__"])}}
+        if rng.random() < 0.65:
+            if rng.random() < 0.5:
+                opts["cancellation_timeout"] = rng.choice([0.5, 1.0])
+            if rng.random() < 0.3:
+                opts["cancellation_backoff"] = 0.5
+            handlers.append({"kind": "daemon", "id": f"d{k}", "opts": opts,
+                             "daemon": {"mode": rng.choice(["obey", "obey", "cancel", "ignore"]), "after": 2.0}})
+            if handlers[-1]["daemon"]["mode"] != "obey":
+                opts.setdefault("cancellation_timeout", 0.5)      # so that a mismatch before the exit ends it in time
+        else:
+            opts["interval"] = rng.choice([1.0, 2.5])
+            handlers.append({"kind": "timer", "id": f"t{k}", "opts": opts, "tcfg": "interval"})
+    if rng.random() < 0.3:      # an unfiltered daemon that exits on its own early: remembered for ever, the memory is idle again
+        handlers.append({"kind": "daemon", "id": "d8", "opts": {}, "daemon": {"mode": "exit", "after": rng.choice([0.5, 1.0])}})
+    dur = rng.choice([1.0, 1.5, 2.5])
+    # (the slow change handler reacts to the spec only: the label edits of the history before the exit must not keep the
+    # object's worker busy while a mismatching instance is taken through its stages — that is another subject)
+    handlers += [{"kind": "create", "id": "c1"}, {"kind": "update", "id": "u1", "opts": {"field": "spec"}, "default": ["sleep", dur, "ok"]}]
+    present = any(h.get("opts", {}).get("labels", {}).get("on") == "__PRESENT__" for h in handlers)
+    off = None if present else rng.choice(["0", None])           # a value by which NO daemon/timer matches
+    lab0 = {} if off is None else {"on": off}
+    t = rng.choice([5.0, 6.0, 8.0])
+    tl: list[list] = []
+    past = rng.choice(["never", "never", "was", "was", "twice"])
+    if past == "never":
+        tl.append([1.0, "create", "a", {"spec": {"x": 0}, "metadata": {"labels": dict(lab0)}}])
+    else:
+        tl.append([1.0, "create", "a", {"spec": {"x": 0}, "metadata": {"labels": {"on": "1"}}}])
+        tl.append([rng.choice([1.5, 2.0]), "edit", "a", {"metadata": {"labels": {"on": off}}}])
+        if past == "twice":
+            tl.append([2.5, "edit", "a", {"metadata": {"labels": {"on": "1"}}}])
+            tl.append([3.0, "edit", "a", {"metadata": {"labels": {"on": off}}}])
+    other = rng.choice([None, None, "busy", "busy", "idle"])
+    if other is not None:
+        tl.append([rng.choice([1.0, 2.0]), "create", "b", {"spec": {"x": 0}, "metadata": {"labels": {"on": "1"} if other == "busy" else dict(lab0)}}])
+    how = rng.choice(["queued", "queued", "queued", "instant", "both"])
+    wake = {"metadata": {"labels": {"on": "1"}}}
+    if how in ("queued", "both"):
+        tl.append([t - rng.choice([0.5, 0.75]), "edit", "a", {"spec": {"x": 1}}])        # the update handler is in flight at the stop
+        tl.append([t - rng.choice([0.25, 1.0 / 64, 2.0 / 64]), "edit", "a", wake])
+        if how == "both" and other == "idle":
+            tl.append([t + rng.choice([0, 1.0 / 64]), "edit", "b", wake])
+    else:
+        tl.append([t + rng.choice([-2.0 / 64, -1.0 / 64, 0, 0, 1.0 / 64]), "edit", rng.choice(["a", "a", "b"]) if other == "idle" else "a", wake])
+    if rng.random() < 0.25:      # an object seen for the first time around the sweep: its new memory must inherit the mark
+        tl.append([t + rng.choice([-1.0 / 64, 0, 0, 1.0 / 64]), "create", "n", {"spec": {"x": 0}, "metadata": {"labels": {"on": "1"}}}])
+    stop_ev = [t, "stop"]
+    same = [e for e in tl if e[0] == t]
+    tl.append(stop_ev)
+    if same and rng.random() < 0.5:       # at the very instant: either order of the two requests
+        tl.remove(same[0])
+        tl.append(same[0])
+    tl.sort(key=lambda e: e[0])
+    tl.append([t + 12.0, "start"])
+    return {"runner": RUNNER, "seed": seed, "handlers": handlers, "timeline": tl, "end": t + 16.0, "settings": {},
+            "flavour": "exit-idle"}
+
+
 def gen_asleep_scenario(rng: Any, seed: int) -> dict:
     """The instance is asked to stop while its own wrapper sleeps: a timer waiting for the object to become idle, between
     two runs, in its initial delay or between two retries; a daemon in its initial delay or between two retries. The stop
@@ -1102,7 +1184,9 @@ def _gen_scenario(rng: Any, seed: int) -> dict:
     r = rng.random()
     if r < 0.06:
         return gen_exit_depletion_scenario(rng, seed)
-    r = (r - 0.06) / 0.94
+    if r < 0.13:
+        return gen_exit_idle_scenario(rng, seed)
+    r = (r - 0.13) / 0.87
     if r < 0.10:
         return gen_asleep_scenario(rng, seed)
     if r < 0.18:
@@ -1845,7 +1929,13 @@ def oracle(ctx: Ctx, sc: dict, res: dict) -> dict:
         iv = incs.get(i["inc"])
         if iv is None or iv["how"] != "stop" or iv.get("stop_done") is None or hs.get(i["hid"]) is None:
             continue
-        if iv["until"] < i["t_spawn"] <= iv["stop_done"] and t_end(i) > i["t_spawn"] + DELTA:
+        if not (iv["until"] < i["t_spawn"] <= iv["stop_done"]):
+            continue
+        # (an instance that ends within the reaction allowance is let off only when it ended BY ITSELF: one whose function
+        # was cancelled from outside without any flag — the operator's sweep of left-over tasks — was never asked to stop)
+        hung = any(tc >= i["t_spawn"] for c in tr["calls"] if c.get("sid") == i["sid"] for tc in c.get("cancels", []))
+        ctx.count("exit", "instance started while the operator was exiting")
+        if t_end(i) > i["t_spawn"] + DELTA or hung:
             if flagged_by(i, None, i["t_spawn"] + DELTA) is None:
                 fail(f"{i['hid']} of {i['uid']} (instance {i['sid']}) was started at t={i['t_spawn']}, after the operator was asked "
                      f"to stop at t={iv['until']} (the daemon killer's exit sweep was over), and was never asked to stop: it ran until "
@@ -2425,6 +2515,9 @@ def extract(ctx: Ctx) -> None:
     out += ("/-- the killer's `finally:` starts with `memories.mark_operator_exiting()` (all memories, and — inventory — those created later);\n"
             "    `spawn_daemons` returns at once for a marked memory -/\n"
             f"def marksExiting : Bool := {'true' if marks_exiting(ctx.repo, tree) else 'false'}\n\n")
+    out += ("/-- inventory: `iter_all_daemon_memories` — the view `mark_operator_exiting` goes over — yields the daemons-memory of\n"
+            "    EVERY remembered object, with or without running daemons (Model/C09_Inventory.lean: `viewAll`) -/\n"
+            f"def viewsEveryMemory : Bool := {'true' if views_every_memory(ctx.repo) else 'false'}\n\n")
     out += ("/-- every `aiotime.sleep(...)` of `_timer` and `_daemon` has the instance's stopper as its wake-up event\n"
             "    (`wakeup=stopper.async_event` / `wakeup=cause.stopper.async_event`): what the model's `sleepSuspends` presumes -/\n"
             f"def sleepsWakeOnStop : Bool := {'true' if sleeps_wake_on_stop(tree) else 'false'}\n\n")
@@ -2539,6 +2632,31 @@ def marks_exiting(repo: Any, tree: ast.AST) -> bool:
             later = "self._operator_exiting = True" in mt and "super().mark_operator_exiting()" in mt \
                 and "memory.daemons_memory.operator_exiting = self._operator_exiting" in rt
     return first and base and later and _spawn_guard(tree, "operator_exiting")
+
+
+def views_every_memory(repo: Any) -> bool:
+    """`ResourceMemories.iter_all_daemon_memories` yields the daemons-memory of EVERY remembered object, unconditionally:
+    the view the exit mark (`mark_operator_exiting`) goes over — a memory without running daemons must be in it. Accepted:
+    one loop over `self._items.values()` whose whole body is `yield memory.daemons_memory`, or one statement built on a
+    single comprehension / generator over `self._items.values()` without a filter."""
+    itree = pyextract.parse_file(repo / "kopf/_core/reactor/inventory.py")
+    for cls in [n for n in ast.walk(itree) if isinstance(n, ast.ClassDef) and n.name == "ResourceMemories"]:
+        for fn in [n for n in cls.body if isinstance(n, ast.FunctionDef) and n.name == "iter_all_daemon_memories"]:
+            body = pyextract.body_without_docstring(fn)
+            if len(body) != 1:
+                return False
+            st = body[0]
+            if isinstance(st, ast.For):
+                return pyextract.norm(st.iter) == "self._items.values()" and not st.orelse and len(st.body) == 1 \
+                    and pyextract.norm(st.body[0]) == f"yield {pyextract.norm(st.target)}.daemons_memory"
+            comps = [n for n in ast.walk(st) if isinstance(n, (ast.GeneratorExp, ast.ListComp))]
+            if isinstance(st, (ast.Expr, ast.Return)) and len(comps) == 1 and len(comps[0].generators) == 1:
+                g = comps[0].generators[0]
+                return pyextract.norm(g.iter) == "self._items.values()" and not g.ifs \
+                    and pyextract.norm(comps[0].elt) == f"{pyextract.norm(g.target)}.daemons_memory" \
+                    and not any(isinstance(n, (ast.If, ast.IfExp)) for n in ast.walk(st))
+            return False
+    return False
 
 
 def loops_yield_each_iteration(tree: ast.AST | None = None) -> bool:
